@@ -4,9 +4,10 @@ import os, pty, sys, termios, gc
 
 class Stream:
     def __init__(self, fd, fail_at=None, exc=KeyboardInterrupt):
-        self.fd, self.fail_at, self.exc, self.ops, self.data = fd, fail_at, exc, 0, []
+        self.fd, self.fail_at, self.exc, self.ops, self.data, self.log = fd, fail_at, exc, 0, [], []
     def _op(self, data=None):
         self.ops += 1
+        self.log.append(data)
         if self.fail_at is not None and self.ops == self.fail_at:
             if data:
                 self.data.append(data[: len(data) // 2])     # an interrupted write delivered a prefix
@@ -127,3 +128,95 @@ def draw_faults_pre_try(m, meta):
     finally:
         os.close(master); os.close(slave)
     return {"reproduced": bool(out), "input": "animated Renderable.draw() with KeyboardInterrupt raised by the k-th termios.tcgetattr call (before the try block)", "observed": out}
+
+
+def _string_command_open(text):
+    """is the terminal still inside an APC / OSC / DCS string after `text`?"""
+    inside, i = False, 0
+    while i < len(text):
+        if not inside and text[i] == "\x1b" and i + 1 < len(text) and text[i + 1] in "_]P":
+            inside, i = True, i + 2
+            continue
+        if inside and (text.startswith("\x1b\\", i) or text[i] == "\x07"):
+            inside = False
+            i += 2 if text[i] == "\x1b" else 1
+            continue
+        i += 1
+    return inside
+
+
+def old_draw_faults(m, meta):
+    """old API: KeyboardInterrupt / an exception at the k-th stream operation (write delivering half of its data, or flush) of the
+    real BaseImage.draw, still and animated, text and graphics styles: cursor visible again, attributes reset, no command left open,
+    current frame and size setting as before, animations silent on Ctrl-C, stills propagate it"""
+    import io
+    import tests  # noqa: F401
+    from replay.C06 import _gif
+    from replay.vt import VT
+    from term_image.image import BlockImage, KittyImage
+    import term_image.image.common as common
+    common.time.sleep = lambda s: None
+    KittyImage._supported = True
+
+    class Boom(Exception):
+        pass
+    out = []
+    for cls in (BlockImage, KittyImage):
+        for frames in (3, 1):
+            image = cls(_gif(frames))
+            image.set_size(height=2)
+            st0 = Stream(0)
+            old = sys.stdout
+            sys.stdout = st0
+            try:
+                image.draw("<", 0, "^", 2, repeat=1)
+            finally:
+                sys.stdout = old
+            n_ops = st0.ops
+            # draw()'s own clean-up: the final print (reset, separator, show cursor, newline = 4 writes) and, before it, the
+            # cursor-down print of _display_animated's finally clause when there is one
+            cleanup_from = n_ops - 4
+            import re as _re
+            if cleanup_from >= 2 and st0.log[cleanup_from - 1] == "" and _re.fullmatch(r"\x1b\[\d+B", st0.log[cleanup_from - 2] or ""):
+                cleanup_from -= 2
+            for exc in (KeyboardInterrupt, Boom):
+                for k in range(1, cleanup_from + 1):
+                    image = cls(_gif(frames))
+                    image.set_size(height=2)
+                    if frames > 1:
+                        image.seek(1)
+                    size0, seek0 = image.size, image.tell()
+                    st = Stream(0, fail_at=k, exc=exc)
+                    old = sys.stdout
+                    sys.stdout = st
+                    raised = None
+                    try:
+                        try:
+                            image.draw("<", 0, "^", 2, repeat=1)
+                        except BaseException as e:      # noqa
+                            raised = type(e).__name__
+                    finally:
+                        sys.stdout = old
+                    text = "".join(st.data)
+                    vt = VT(width=80, height=30, row=3, col=0).feed(text)
+                    errs = []
+                    if not vt.vis:
+                        errs.append("cursor left hidden")
+                    if _string_command_open(text):
+                        errs.append("a graphics command (APC/OSC/DCS string) left open")
+                    if image.size != size0 or image.tell() != seek0:
+                        errs.append(f"size/current frame changed: {image.size}, {image.tell()}")
+                    if frames > 1 and raised == "KeyboardInterrupt":
+                        errs.append("animation propagated KeyboardInterrupt")
+                    if frames == 1 and exc is KeyboardInterrupt and raised != "KeyboardInterrupt":
+                        errs.append("still image swallowed KeyboardInterrupt")
+                    if errs:
+                        out.append({"style": cls.__name__, "frames": frames, "fault": exc.__name__, "at stream operation": k, "of": n_ops, "failed": errs})
+                        break
+                if out:
+                    break
+            if out:
+                break
+        if out:
+            break
+    return {"reproduced": bool(out), "input": "fault at every stream operation of old-API draw()", "observed": out[:2]}
